@@ -785,6 +785,12 @@ def explore_profiles(prop, tier, seed, n_quick):
                             except KeyError:
                                 pass
                 ex.res.count('cases_with_subscript_reads_before_the_profile')
+            early10 = []
+            if prop == 'C10' and k % 2 == 0:
+                # the per-family profiles are asked for BEFORE any whole-dataset profile exists (the whole-dataset profile creates
+                # the genomes of species that have no <species> element: r11-C10b)
+                early10 = [(tid_, ob.profileS(h.create_tree_profile(hog=top_).treemap, pathof(top_.genome.taxon))) for tid_, top_ in h.get_dict_top_level_hogs().items()]
+                ex.res.count('family_profiles_before_the_whole_dataset_profile')
             bad = orc.c09(D, h, ex.tmp) if prop == 'C09' else orc.c10(D, h)
             tp = h.create_tree_profile()
             o.put('tpfull', ob.profileS(tp.treemap))
@@ -825,6 +831,9 @@ def explore_profiles(prop, tier, seed, n_quick):
                     for j_, (tid, top) in enumerate(h.get_dict_top_level_hogs().items())]
             for tid, top, tph in held:      # read only after all of them exist
                 o.put('tphog', ob.osS(tid) + '|' + ob.profileS(tph.treemap, pathof(top.genome.taxon)))
+                for tid0_, s0_ in early10:
+                    if tid0_ == tid and s0_ != ob.profileS(tph.treemap, pathof(top.genome.taxon)):
+                        bad.append('the profile of family %s computed before the whole-dataset profile differs from the one computed after it: %s vs %s' % (tid, s0_[:120], ob.profileS(tph.treemap, pathof(top.genome.taxon))[:120]))
                 q_ = pathof(top.genome.taxon)
                 nsub_ = sum(1 for p_ in gen.paths(D.T) if p_[:len(q_)] == q_)
                 if prop == 'C10' and sum(1 for _ in tph.treemap.traverse()) != nsub_:
@@ -989,6 +998,20 @@ def c11(tier, seed):
                         hf.get_gene_by_id(g); bad.append('gene %s of an unselected family can be looked up' % g)
                     except KeyError:
                         pass
+            # ... nor through their cross-references: a value answers with exactly the SELECTED genes that carry it, KeyError if
+            # none does -- also when it differs from a selected gene's value by letter case only (r11-C11b)
+            xsel_ = collections.defaultdict(list)
+            for g_ in want_genes:
+                for _, v_ in decl.get(g_, []):
+                    xsel_[v_].append(g_)
+            for v_ in sorted(set(v2_ for g_ in allg for _, v2_ in decl[g_]))[:40]:
+                try:
+                    got_ = sorted(x_.unique_id for x_ in hf.get_genes_by_external_id(v_))
+                except KeyError:
+                    got_ = None
+                want_ = sorted(set(xsel_.get(v_, []))) or None
+                if (sorted(set(got_)) if got_ else None) != want_:
+                    bad.append('filtered analysis: cross-reference %r answers %s, the selected genes carrying it are %s' % (v_, got_, want_))
             bad += ['filtered: ' + x for x in orc.wf_problems(hf)]
         if bad:
             ex.fail(cid, D, bad)
@@ -1224,6 +1247,37 @@ def c16(tier, seed):
                 o.put('atlevel', '%s@%s=%s' % (nodekey(m), taxS(p), txt))
                 queries.append('(atlevel %s %s)' % (gen.q(nodekey(m)), tax_q(p)))
                 ex.res.count('atlevel_' + ('err' if txt.startswith('err') else 'ok'))
+            if k % 3 == 1 and D.naming == 'own' and not bad:
+                # species_resolve_mode="OMA" (a <species> named after a clade is attached to the clade's only code-like leaf), then a
+                # whole-dataset profile: the genomes the analysis lists are the genomes its genes live in, and asking a member for
+                # such a genome answers as before (r11-C16a: a second, empty genome object bound to the leaf)
+                import re as _re16
+                for p16 in gen.paths(D.T):
+                    t16 = gen.sub(D.T, p16)
+                    codes16 = [i_ for i_, k_ in enumerate(t16[1]) if len(k_[0]) == 5 and _re16.match(r'[A-Z][A-Z0-9]{4}', k_[0])]
+                    if not (t16[1] and len(codes16) == 1 and not t16[1][codes16[0]][1]):
+                        continue
+                    leaf16 = t16[1][codes16[0]][0]
+                    idx16 = [i_ for i_, (n_, _) in enumerate(D.species) if n_ == leaf16]
+                    if len(idx16) != 1:
+                        continue
+                    sp16 = list(D.species); sp16[idx16[0]] = (t16[0], sp16[idx16[0]][1])
+                    try:
+                        ho = core.load_py(D, species=sp16, species_resolve_mode='OMA')
+                    except Exception:      # noqa
+                        break
+                    ho.create_tree_profile()
+                    ex.res.count('oma_mode_navigation_after_profile')
+                    listed16 = ho.get_list_extant_genomes()
+                    for g16 in ho.get_list_extant_genes():
+                        if not any(g16.genome is x_ for x_ in listed16) or ho.get_extant_genome_by_name(g16.genome.name) is not g16.genome:
+                            bad.append('OMA mode, after a tree profile: gene %s lives in a genome object the analysis does not list / return by name' % g16.unique_id); break
+                    for top16 in ho.get_list_top_level_hogs()[:3]:
+                        for m16 in list(all_nodes(top16))[:6]:
+                            for gen16 in listed16:
+                                b16, _ = orc.c16_atlevel(ho, m16, gen16)
+                                bad += ['OMA mode, after a tree profile: ' + x_ for x_ in b16]
+                    break
             if k % 5 == 3 and not bad:
                 # navigation asked for from INSIDE a walk (a visit() callback that itself navigates): same answers as outside
                 for top_ in h.get_list_top_level_hogs()[:3]:
